@@ -98,7 +98,9 @@ EXTRA = {
  "C07": " Partial path: SatDC07Partial.sat_C07_partial extends the liveness theorem to LiqSubCase OR LiqPartialCase (forward simulation of the partial liquidation); every clause of LiqPartialCase has a kernel-evaluated world in which exactly that clause fails and the liquidation fails although the property's premises hold (the exact condition is |realised PnL| + penalty <= margin, not the sign of the ratio).",
  "C08": " Every fault point: Model/Fault.lean is the dispatcher with one injected failure (countdown over every dispatched message); FaultAtomic.fault_fails_tx proves for every k, world and transaction of every kind that a transaction which succeeds although fault k was armed never reached it and has the normal result (a fired fault fails the whole call; stepF_atomic: nothing changes), fault_profile gives the exact profile; the harness's fault mode and the theorem speak about the same indices (the driver compares, per engine transaction and index, whether the model's tree reaches the index and whether the implementation's sub-call exists).",
  "C14": " Registry clause Spec.C14.checkReg (a successful RemoveVamm / AddVamm changes exactly the named entry, nothing else changes the registry): SatExtra3.sat_C14_reg, reachable_extra3, history_extra3. Liveness clause Spec.C14.checkPauseLive (a Liquidate / PayFunding refused BECAUSE the engine is paused, judged on the error text): SatExtra4.sat_C14_pauseLive; that the model's handlers do not consult the pause flag is EngineGuards.liquidate_ignores_pause / payFunding_ignores_pause.",
+ "C17": " vAMM-side clause Spec.C17.checkVammSide (Spec/LimitV.lean): on an accepted OpenPosition with a non-zero limit that opens, increases or reduces, the base amount is read off the vAMM's base reserve (not off the engine's stored size, which a book-keeping defect corrupts): SatLimitV.sat_C17_vammSide under the sign/direction invariant alone (shown necessary by a kernel-evaluated witness), corollaries on Reachable / ReachableTx worlds and along histories; swapInput_baseMoved: the swap moves the base reserve by exactly the reported amount and the vAMM's own guard gives the inequality.",
  "C18": " Feed clause Spec.C18F.recordedOk (an accepted submission is exactly one new round with the submitted values, older rounds untouched; latest / n-back answers are judged against what was SUBMITTED): C18FRec.appendPrice_recorded / appendMultiple_recorded.",
+ "C12": " Deployment: the fee ratios a market charges are the ones its instantiate message carried — InstV.instantiate_fields (what one accepted vAMM instantiate stores, field by field) and DeployFields.deploy_fields (every market of a successful model deployment stores its spec's toll, spread, fluctuation limit, funding period, reserves, owner, engine, zero caps, open flag, registry bit; only the distinctness of the addresses is used, and shown necessary by a kernel-evaluated witness); on the implementation the driver compares the parameters of the CFG line with the first observation of every real deployment (deployChecks) and the vAMM stream compares the instantiate parameters with the stored configuration.",
  "C20": " Deployment: Engine.instantiate is modelled (Model/Instantiate.lean) and compared with the contract on boundary-biased instantiate probes (EINST lines, incl. collaterals with 0..39 decimals); Inst.instantiate_ok_iff (accepts exactly the in-bounds messages), instantiate_configOK, instantiate_fresh.",
  "C09": " Frame clause Spec.C09.checkFrame (Spec/Roles.lean): the holder of every role (engine owner, pauser, fund / pool / feed owner, every vAMM's owner) and every delegation address (engine's fund and pool, each vAMM's engine / fund / feed, the fund's engine) is the same before and after EVERY transaction except a successful transfer / update-config naming exactly that field: SatRoles.sat_C09_frame (every world, sender, block, funds, transaction; no hypothesis), history level SatRoles.run_pauser / run_engine_owner / run_vamm_owner / ... (along Capstone.run a role moves only if the history contains its transfer); kernel-evaluated witnesses that the clause sees a moved pauser / vAMM owner and passes the permitted transfers. Generator: role hand-over and delegation scripts (each role handed over, the old holder / engine owner / a stranger try the role's calls in the states where they act, the new holder acts, hands back, tries again).",
  "C10": " Scope of the Liquidate exception (Spec/Scope.lean, C10.checkLiqScope): a Liquidate{v, t} sent by another account leaves t's records on every OTHER vAMM exactly as they were — SatScope.sat_C10_liqScope (every world, sender, block, funds, transaction; no hypothesis, not even the absence of stale in-flight records: liquidate_scopeK), kernel-evaluated two-market witnesses (full and partial liquidation, stale residue harmless, clause not vacuous). Query view: after every transaction the engine's own answer to Position{vamm, trader} for every deployed market x trading account is compared with the stored records and with its previous answer (only the sender's own answers, or the one a Liquidate names, may change).",
